@@ -317,12 +317,13 @@ package ast
 // references of the merged root Taskfile once, after the last merge (TaskfileGraph.Merge$3)
 //@ func taskNameWithNamespace
 //@   ensures strHasPrefix(taskName, ":") ==> result == taskName                                                         [C08]
+//@   nosite strings.TrimLeft                                                                                            [C08]
+//@   nosite strings.TrimLeftFunc                                                                                        [C08]
+//@   nosite strings.TrimPrefix                                                                                          [C08]
 //@ func (*TaskfileGraph).Merge$3
 //@   site strings.TrimLeft#0 requires arg1 == ":"            -- only the mark goes: ":x" and "::x" alike become x       [C08]
 //@   nosite strings.ReplaceAll                                                                                          [C08]
 //@   nosite strings.Trim                                                                                                [C08]
-//@   nosite strings.TrimLeft                                                                                            [C08]
-//@   nosite strings.TrimLeftFunc                                                                                        [C08]
 // ---- C09: the order in which Taskfiles of one level are merged is the plain order of their locations (a total
 // order: two different locations never tie)
 //@ func (*TaskfileGraph).Merge$1
